@@ -181,7 +181,7 @@ Section dispatch.
       eapply Inv_backends_eq; [apply backends_set_f|auto].
     - unfold remove_front. destruct (get_f tls s !! front_key f); cbn; auto.
       eapply Inv_backends_eq; [apply backends_set_f|auto].
-    - unfold add_tfront. destruct (bool_decide _); cbn;
+    - unfold add_tfront. destruct (addr_elsewhere _ _ _); [exact HI|]. destruct (bool_decide _); cbn;
         (eapply Inv_backends_eq; [apply backends_set_t|auto]).
     - unfold remove_tfront. destruct (get_t udp s !! c); cbn; auto.
       destruct (_ =? _)%nat; cbn; (eapply Inv_backends_eq; [apply backends_set_t|auto]).
@@ -233,7 +233,7 @@ Section dispatch.
       + destruct cur; inv_pair H; reflexivity.
     - unfold add_front in H. destruct (get_f tls s !! front_key f); [|destruct (f_pos f <? 3)]; inv_pair H; reflexivity.
     - unfold remove_front in H. destruct (get_f tls s !! front_key f); inv_pair H; reflexivity.
-    - unfold add_tfront in H. destruct (bool_decide _) eqn:Hin; inv_pair H.
+    - unfold add_tfront in H. destruct (addr_elsewhere _ _ _); [inv_pair H; reflexivity|]. destruct (bool_decide _) eqn:Hin; inv_pair H.
       apply bool_decide_eq_true in Hin.
       destruct (get_t udp s !! c) as [l|] eqn:Hl; cbn [default] in *.
       + rewrite insert_id by exact Hl. apply set_t_get_t.
@@ -347,7 +347,7 @@ Section dispatch.
         first [apply frame_refl | apply frame_front; other_key].
     - unfold remove_front in H. destruct (get_f tls s !! front_key f); inv_pair H;
         first [apply frame_refl | apply frame_front; other_key].
-    - unfold add_tfront in H. destruct (bool_decide _); inv_pair H; apply frame_tfront; other_key.
+    - unfold add_tfront in H. destruct (addr_elsewhere _ _ _); [inv_pair H; apply frame_refl|]. destruct (bool_decide _); inv_pair H; apply frame_tfront; other_key.
     - unfold remove_tfront in H. destruct (get_t udp s !! c); [|inv_pair H; apply frame_refl].
       destruct (_ =? _)%nat; inv_pair H; apply frame_tfront; other_key.
     - unfold add_backend in H. inv_pair H. apply frame_backends; other_key.
